@@ -27,7 +27,7 @@ theorem RT.bind {α α' β β'} {P : Ctx → Prop} {m : PM α} {m' : PM α'} {V 
     (h1 : RT L k P m m' V Q) (h2 : ∀ a a', V a a' → RT L k (Q a) (f a) (f' a') V2 Q2) :
     RT L k P (m >>= f) (m' >>= f') V2 Q2 := by
   intro c hc r c' h
-  rw [run_bind] at h ⊢
+  rw [prun_bind] at h ⊢
   rcases hr : run m c with ⟨r1, c1⟩
   rw [hr] at h
   have := h1 c hc r1 c1 hr
@@ -45,14 +45,14 @@ theorem RT.bind {α α' β β'} {P : Ctx → Prop} {m : PM α} {m' : PM α'} {V 
 theorem RT.pure {α α'} {P : Ctx → Prop} {V : α → α' → Prop} {Q : α → Ctx → Prop} (a : α) (a' : α')
     (hv : V a a') (hq : ∀ c, P c → Q a c) : RT L k P (pure a : PM α) (pure a' : PM α') V Q := by
   intro c hc r c' h
-  rw [run_pure] at h
+  rw [prun_pure] at h
   cases h
   exact ⟨a', rfl, hv, hq c hc⟩
 
 theorem RT.throw {α α'} {P : Ctx → Prop} {V : α → α' → Prop} {Q : α → Ctx → Prop} (e : Abort) :
     RT L k P (throw e : PM α) (throw e : PM α') V Q := by
   intro c hc r c' h
-  rw [run_throw] at h
+  rw [prun_throw] at h
   cases h
   rfl
 
@@ -74,7 +74,7 @@ theorem RT.of_forall {α α'} {P : Ctx → Prop} {m : PM α} {m' : PM α'} {V : 
   fun c hc => h c hc c rfl
 
 /-- an operation that leaves the scanner fields alone simulates itself -/
-theorem RT.of_frame {α} {P : Ctx → Prop} {m : PM α} {Q : α → Ctx → Prop} (hf : Frame m)
+theorem RT.of_frame {α} {P : Ctx → Prop} {m : PM α} {Q : α → Ctx → Prop} (hf : QFrame m)
     (hu : ∀ c r c', P c → run m c = (r, c') → ∀ a, r = .ok a → Q a c') : RT L k P m m Eq Q := by
   intro c hc r c' h
   have := hf c [] (L.drop k) k r c' h
@@ -109,20 +109,20 @@ end RT
 
 /-! ### the error tail -/
 
-theorem Frame.modify (f : Ctx → Ctx) (hf : ∀ c q ls n, f (rf c q ls n) = rf (f c) q ls n) :
-    Frame (modify f : PM PUnit) := by
+theorem QFrame.modify (f : Ctx → Ctx) (hf : ∀ c q ls n, f (rf c q ls n) = rf (f c) q ls n) :
+    QFrame (modify f : PM PUnit) := by
   intro c q ls n r c' h
   rw [run_modify] at h ⊢
   cases h
   rw [hf]
 
-theorem Frame.tail (D : List Dialect) (T : Table) (stop : Bool) (row : StateRow) (t : Token) :
-    Frame (tryBranches D T stop row [] t) := by
+theorem QFrame.tail (D : List Dialect) (T : Table) (stop : Bool) (row : StateRow) (t : Token) :
+    QFrame (tryBranches D T stop row [] t) := by
   rw [tryBranches]
-  refine Frame.bind (Frame.modify _ fun _ _ _ _ => rfl) fun _ => ?_
+  refine QFrame.bind (QFrame.modify _ fun _ _ _ _ => rfl) fun _ => ?_
   split
-  · exact Frame.throw _
-  · exact Frame.bind (Frame.addError _ _) fun _ => Frame.pure _
+  · exact QFrame.throw _
+  · exact QFrame.bind (QFrame.addError _ _) fun _ => QFrame.pure _
 
 theorem tail_pure_eq (D : List Dialect) (T : Table) (stop : Bool) (row : StateRow) {t t' : Token}
     (h1 : t.lineNo = t'.lineNo) (h2 : unexpectedErr row t = unexpectedErr row t') :
@@ -173,7 +173,7 @@ theorem tbA_r (row : StateRow) : ∀ (bs : List Branch), (∀ b ∈ bs, b.guard 
     intro _ t t' htr
     rcases htr.2 with h2 | ⟨b, hb, -⟩
     · rw [tail_pure_eq D T stop row htr.1.2 (h2 row)]
-      exact RT.of_frame (Frame.tail D T stop row t) fun _ _ _ _ _ _ _ => trivial
+      exact RT.of_frame (QFrame.tail D T stop row t) fun _ _ _ _ _ _ _ => trivial
     · cases hb
   | cons b bs ih =>
     intro hbs t t' htr
@@ -205,7 +205,7 @@ theorem tbA_r (row : StateRow) : ∀ (bs : List Branch), (∀ b ∈ bs, b.guard 
       subst hc0
       simp only [if_true]
       exact RT.conseq (RT.of_frame (Q := fun _ _ => True)
-        (Frame.bind (Frame.runProds _ _ _ _) fun _ => Frame.pure _) fun _ _ _ _ _ _ _ => trivial)
+        (QFrame.bind (QFrame.runProds _ _ _ _) fun _ => QFrame.pure _) fun _ _ _ _ _ _ _ => trivial)
         (fun _ _ => trivial) (fun _ _ h => h)
 
 /-! ### states with guarded tests -/
@@ -260,15 +260,15 @@ theorem RT_finish {j : Nat} {P : Ctx → Prop} {Q : Nat → Ctx → Prop} (u : T
     (hu : ∀ c r c', P c → run (runProds T.errorCap stop u ps) c = (r, c') → Q target c') :
     RT L (j + 1) P (do runProds T.errorCap stop u ps; pure target) (do runProds T.errorCap stop u ps; pure target)
       Eq Q := by
-  refine RT.of_frame (Frame.bind (Frame.runProds _ _ _ _) fun _ => Frame.pure _) fun c r c' hc hr a ha => ?_
-  rw [run_bind] at hr
+  refine RT.of_frame (QFrame.bind (QFrame.runProds _ _ _ _) fun _ => QFrame.pure _) fun c r c' hc hr a ha => ?_
+  rw [prun_bind] at hr
   rcases hr1 : run (runProds T.errorCap stop u ps) c with ⟨r1, c1⟩
   rw [hr1] at hr
   cases r1 with
   | error e => subst ha; cases hr
   | ok _ =>
     dsimp only at hr
-    rw [run_pure] at hr
+    rw [prun_pure] at hr
     subst ha
     cases hr
     exact hu c _ _ hc hr1
@@ -383,7 +383,7 @@ theorem tb1r (F : QF D T) (j : Nat) (row : StateRow) :
     intro _ t t' _ htr
     rcases htr.2 with h2 | ⟨b, hb, -⟩
     · rw [tail_pure_eq D T stop row htr.1.2 (h2 row)]
-      refine RT.of_frame (Frame.tail D T stop row t) fun c r c' hc hr a _ => ?_
+      refine RT.of_frame (QFrame.tail D T stop row t) fun c r c' hc hr a _ => ?_
       obtain ⟨⟨es, un, rfl⟩, -⟩ := tail_spec D T stop row t hr
       exact Z1.post ⟨hc.1.tail es un, hc.2⟩ a
     · cases hb
@@ -510,7 +510,7 @@ theorem mtr (F : QF D T) (hCB : commentBlankTested T = true) (j s : Nat) (t t' :
   | none =>
     rw [hrow] at hr
     dsimp only at hr ⊢
-    rw [run_throw] at hr
+    rw [prun_throw] at hr
     cases hr
     rfl
   | some row =>
@@ -547,11 +547,11 @@ theorem pure_step (fuel s : Nat) (p : Ctx) :
           if ({ line := p.lines.head?, lineNo := p.lineNo + 1 } : Token).eof then Pure.pure s'
           else parseLinesPure D T stop fuel s')
         { p with lines := p.lines.tail, lineNo := p.lineNo + 1, reads := p.reads ++ [p.lineNo + 1] } := by
-  rw [parseLinesPure, run_bind, run_get]
+  rw [parseLinesPure, prun_bind, run_get]
   dsimp only
   cases p.lines with
-  | nil => simp only [run_bind, run_set, run_pure, run_modify]; rfl
-  | cons l ls => simp only [run_bind, run_set, run_pure, run_modify]; rfl
+  | nil => simp only [prun_bind, run_set, prun_pure, run_modify]; rfl
+  | cons l ls => simp only [prun_bind, run_set, prun_pure, run_modify]; rfl
 
 theorem loopr (F : QF D T) (hCB : commentBlankTested T = true) : ∀ (fuel j s : Nat) (c : Ctx),
     Head D T L j s c → QI c → ∀ r c', run (parseLoop D T stop fuel s) c = (r, c') →
@@ -560,18 +560,18 @@ theorem loopr (F : QF D T) (hCB : commentBlankTested T = true) : ∀ (fuel j s :
   induction fuel with
   | zero =>
     intro j s c _ _ r c' h
-    rw [parseLoop, run_throw] at h
+    rw [parseLoop, prun_throw] at h
     cases h
     exact ⟨j, rfl⟩
   | succ fuel ih =>
     intro j s c hhead hqi r c' h
-    rw [parseLoop, run_bind] at h
+    rw [parseLoop, prun_bind] at h
     obtain ⟨t, c1, hr0, hcase⟩ := readToken_cases c
     have hmid := (read_step (D := D) (T := T) (L := L) j s c hhead).1 t c1 hr0
     obtain ⟨hkey, hmid⟩ := hmid
     rw [hr0] at h
     dsimp only at h
-    rw [run_bind, run_modify] at h
+    rw [prun_bind, run_modify] at h
     dsimp only at h
     have hn : t.lineNo = j + 1 := congrArg Prod.snd hkey
     have hl : t.line = L[j]? := congrArg Prod.fst hkey
@@ -600,7 +600,7 @@ theorem loopr (F : QF D T) (hCB : commentBlankTested T = true) : ∀ (fuel j s :
     have hno : (pureOf L j c).lineNo + 1 = j + 1 := rfl
     rw [hhead?, hno]
     have hk : sameKey t { line := L[j]?, lineNo := j + 1 } := ⟨hl, hn⟩
-    rw [run_bind] at h ⊢
+    rw [prun_bind] at h ⊢
     rcases hr1 : run (matchToken D T stop s t) { c1 with reads := c1.reads ++ [t.lineNo] } with ⟨r1, c3⟩
     rw [hr1] at h
     have := mtr (stop := stop) F hCB j s t _ hkey hk (colOK_fresh _ _) htinv _ ⟨hmid, hqi2⟩ r1 c3 hr1
@@ -621,7 +621,7 @@ theorem loopr (F : QF D T) (hCB : commentBlankTested T = true) : ∀ (fuel j s :
       split at h
       · rename_i he
         rw [if_pos he]
-        rw [run_pure] at h ⊢
+        rw [prun_pure] at h ⊢
         cases h
         exact ⟨j + 1, rfl⟩
       · rename_i he
@@ -642,10 +642,10 @@ theorem bodyr (F : QF D T) (hCB : commentBlankTested T = true) (n : Nat) (c : Ct
     (hhead : Head D T L 0 0 c) (hqi : QI c) {r : Except Abort Doc} {c' : Ctx}
     (h : run (parseBody D T stop n) c = (r, c')) :
     ∃ j', run (parseBodyPure D T stop n) (pureOf L 0 c) = (r, pureOf L j' c') := by
-  rw [parseBody, run_bind, run_modify] at h
-  rw [parseBodyPure, run_bind, run_modify]
+  rw [parseBody, prun_bind, run_modify] at h
+  rw [parseBodyPure, prun_bind, run_modify]
   dsimp only at h ⊢
-  rw [run_bind] at h ⊢
+  rw [prun_bind] at h ⊢
   rcases hr1 : run (parseLoop D T stop (n + 2) 0) { c with β := c.β.startRule T.startRule } with ⟨r1, c1⟩
   rw [hr1] at h
   have hhead' : Head D T L 0 0 { c with β := c.β.startRule T.startRule } := by
@@ -659,17 +659,17 @@ theorem bodyr (F : QF D T) (hCB : commentBlankTested T = true) (n : Nat) (c : Ct
   | error e => cases h; exact ⟨j', rfl⟩
   | ok s1 =>
     dsimp only at h ⊢
-    rw [run_bind] at h ⊢
+    rw [prun_bind] at h ⊢
     rcases hr2 : run (runProd T.errorCap stop default (.end_ T.startRule)) c1 with ⟨r2, c2⟩
     rw [hr2] at h
-    have hf := Frame.runProd T.errorCap stop default (.end_ T.startRule) c1 [] (L.drop j') j' r2 c2 hr2
+    have hf := QFrame.runProd T.errorCap stop default (.end_ T.startRule) c1 [] (L.drop j') j' r2 c2 hr2
     have hf' : run (runProd T.errorCap stop default (.end_ T.startRule)) (pureOf L j' c1) = (r2, pureOf L j' c2) := hf
     rw [hf']
     cases r2 with
     | error e => cases h; exact ⟨j', rfl⟩
     | ok _ =>
       dsimp only at h ⊢
-      rw [run_bind, run_get] at h ⊢
+      rw [prun_bind, run_get] at h ⊢
       dsimp only at h ⊢
       have e1 : (pureOf L j' c2).errors = c2.errors := rfl
       have e2 : (pureOf L j' c2).β = c2.β := rfl
@@ -678,26 +678,26 @@ theorem bodyr (F : QF D T) (hCB : commentBlankTested T = true) (n : Nat) (c : Ct
       split at h
       · rename_i hc
         rw [if_pos hc]
-        rw [run_bind, run_throw] at h ⊢
+        rw [prun_bind, prun_throw] at h ⊢
         cases h; rfl
       · rename_i hc
         rw [if_neg hc]
         split at h
         · rename_i d hres
           simp only [hres]
-          rw [run_pure] at h ⊢
+          rw [prun_pure] at h ⊢
           cases h; rfl
         · rename_i hres
           simp only [hres]
-          rw [run_throw] at h ⊢
+          rw [prun_throw] at h ⊢
           cases h; rfl
         · rename_i w hres
           simp only [hres]
-          rw [run_throw] at h ⊢
+          rw [prun_throw] at h ⊢
           cases h; rfl
         · rename_i e hres
           simp only [hres]
-          rw [run_throw] at h ⊢
+          rw [prun_throw] at h ⊢
           cases h; rfl
 
 end
